@@ -10,6 +10,7 @@ import (
 
 	br "verif/mc/checks/binderrun"
 	"verif/mc/checks/binderrun/syncshim"
+	"verif/mc/engine"
 )
 
 // Program is one concurrent situation: a world prepared by the real code plus 2–3 threads each
@@ -17,8 +18,27 @@ import (
 type Program struct {
 	Name    string
 	Threads []string
-	// build returns the world (quiescent), the shared process image and the thread bodies.
-	build func() (*br.World, []func(), error)
+	// setup prepares the quiescent world once (real code binds the pre-existing consumers, the
+	// environment events happen) and returns a factory for the thread bodies on a clone of it.
+	setup func() (*br.World, func(w *br.World, p *br.Proc) []func(), error)
+
+	base   *br.World
+	bodies func(w *br.World, p *br.Proc) []func()
+}
+
+// instance returns a fresh copy of the prepared world, a fresh process image shared by all threads
+// and the thread bodies.
+func (pg *Program) instance() (*br.World, []func(), error) {
+	if pg.base == nil {
+		b, f, err := pg.setup()
+		if err != nil {
+			return nil, nil, err
+		}
+		pg.base, pg.bodies = b, f
+	}
+	w := pg.base.Clone()
+	p := w.NewProc()
+	return w, pg.bodies(w, p), nil
 }
 
 func fracWL(name, f string, gs ...string) br.Workload {
@@ -43,77 +63,93 @@ var bgctx = context.Background()
 // share the reservation service and therefore its group mutex.
 func programs(tier string) []Program {
 	mk := func(name string, threads []string, pre []br.Workload, target br.Workload, others []br.Workload,
-		prep func(w *br.World, p *br.Proc, sc *br.Scenario) []func()) Program {
-		return Program{Name: name, Threads: threads, build: func() (*br.World, []func(), error) {
+		prep func(w *br.World, sc *br.Scenario) func(w *br.World, p *br.Proc) []func()) Program {
+		return Program{Name: name, Threads: threads, setup: func() (*br.World, func(w *br.World, p *br.Proc) []func(), error) {
 			sc := &br.Scenario{Name: name, Node: "node-1", Pre: pre, Target: target, Others: others}
-			w, p, err := sc.Build(0, true)
+			w, _, err := sc.Build(0, true)
 			if err != nil {
 				return nil, nil, err
 			}
-			bodies := prep(w, p, sc)
-			w.Trace = nil
-			return w, bodies, nil
+			return w, prep(w, sc), nil
 		}}
 	}
 	var errsSink []string
 	ps := []Program{
 		// two reconciles opening the same new group
 		mk("bind||bind same-new-group", []string{"reconcile(a)", "reconcile(b)"}, nil, fracWL("a", "0.5", "g1"), []br.Workload{fracWL("b", "0.3", "g1")},
-			func(w *br.World, p *br.Proc, sc *br.Scenario) []func() {
+			func(w *br.World, sc *br.Scenario) func(w *br.World, p *br.Proc) []func() {
 				w.EnvCreate(sc.NewBR(&sc.Others[0]))
-				return []func(){reconcileBody(p, "a", &errsSink), reconcileBody(p, "b", &errsSink)}
+				return func(w *br.World, p *br.Proc) []func() {
+					return []func(){reconcileBody(p, "a", &errsSink), reconcileBody(p, "b", &errsSink)}
+				}
 			}),
 		// a consumer of g1 was deleted: its delete handler syncs g1 while another pod joins g1
 		mk("pod-delete-handler||bind joining-group", []string{"pod-deleted(c0)", "reconcile(b)"}, []br.Workload{fracWL("c0", "0.3", "g1")}, fracWL("b", "0.5", "g1"), nil,
-			func(w *br.World, p *br.Proc, sc *br.Scenario) []func() {
+			func(w *br.World, sc *br.Scenario) func(w *br.World, p *br.Proc) []func() {
 				last := w.EnvDeletePod("c0")
-				return []func(){func() { p.PodDeleted(last) }, reconcileBody(p, "b", &errsSink)}
+				return func(w *br.World, p *br.Proc) []func() {
+					return []func(){func() { p.PodDeleted(last) }, reconcileBody(p, "b", &errsSink)}
+				}
 			}),
 		// a consumer of g1 completed: completion handler vs bind
 		mk("pod-completion-handler||bind joining-group", []string{"pod-completed(c0)", "reconcile(b)"}, []br.Workload{fracWL("c0", "0.3", "g1")}, fracWL("b", "0.5", "g1"), nil,
-			func(w *br.World, p *br.Proc, sc *br.Scenario) []func() {
+			func(w *br.World, sc *br.Scenario) func(w *br.World, p *br.Proc) []func() {
 				old, cur := w.EnvSetPhase("c0", v1.PodSucceeded)
-				return []func(){func() { p.PodUpdated(old, cur) }, reconcileBody(p, "b", &errsSink)}
+				return func(w *br.World, p *br.Proc) []func() {
+					return []func(){func() { p.PodUpdated(old, cur) }, reconcileBody(p, "b", &errsSink)}
+				}
 			}),
 		// the BindRequest of a consumer of g1 is deleted (scheduler / GC): BR delete handler vs bind
 		mk("bindrequest-delete-handler||bind joining-group", []string{"br-deleted(c0)", "reconcile(b)"}, []br.Workload{fracWL("c0", "0.3", "g1")}, fracWL("b", "0.5", "g1"), nil,
-			func(w *br.World, p *br.Proc, sc *br.Scenario) []func() {
+			func(w *br.World, sc *br.Scenario) func(w *br.World, p *br.Proc) []func() {
 				// c0 is gone together with its request: only the BR handler runs (the pod handler ran earlier and found g1 still used)
 				last := w.EnvDeleteBR("c0")
 				_ = w.EnvDeletePod("c0")
-				return []func(){func() { p.BRDeleted(last) }, reconcileBody(p, "b", &errsSink)}
+				return func(w *br.World, p *br.Proc) []func() {
+					return []func(){func() { p.BRDeleted(last) }, reconcileBody(p, "b", &errsSink)}
+				}
 			}),
 		// node-wide sync (what every Bind and every Rollback start with) vs bind opening a group
 		mk("sync-for-node||bind new-group", []string{"SyncForNode", "reconcile(a)"}, nil, fracWL("a", "0.5", "g1"), nil,
-			func(w *br.World, p *br.Proc, sc *br.Scenario) []func() {
-				return []func(){func() { _ = p.RRS.SyncForNode(bgctx, "node-1") }, reconcileBody(p, "a", &errsSink)}
+			func(w *br.World, sc *br.Scenario) func(w *br.World, p *br.Proc) []func() {
+				return func(w *br.World, p *br.Proc) []func() {
+					return []func(){func() { _ = p.RRS.SyncForNode(bgctx, "node-1") }, reconcileBody(p, "a", &errsSink)}
+				}
 			}),
 		// multi-fraction and single-fraction pods meeting on g1
 		mk("bind(multi g1,g2)||bind(single g1)", []string{"reconcile(m)", "reconcile(s)"}, nil, fracWL("m", "0.5", "g1", "g2"), []br.Workload{fracWL("s", "0.3", "g1")},
-			func(w *br.World, p *br.Proc, sc *br.Scenario) []func() {
+			func(w *br.World, sc *br.Scenario) func(w *br.World, p *br.Proc) []func() {
 				w.EnvCreate(sc.NewBR(&sc.Others[0]))
-				return []func(){reconcileBody(p, "m", &errsSink), reconcileBody(p, "s", &errsSink)}
+				return func(w *br.World, p *br.Proc) []func() {
+					return []func(){reconcileBody(p, "m", &errsSink), reconcileBody(p, "s", &errsSink)}
+				}
 			}),
 		// three threads: two binds on one group plus the startup Sync that runs while the manager already reconciles
 		mk("bind||bind||startup-sync", []string{"reconcile(a)", "reconcile(b)", "Sync"}, []br.Workload{fracWL("c0", "0.3", "g1")}, fracWL("a", "0.5", "g1"), []br.Workload{fracWL("b", "0.2", "g1")},
-			func(w *br.World, p *br.Proc, sc *br.Scenario) []func() {
+			func(w *br.World, sc *br.Scenario) func(w *br.World, p *br.Proc) []func() {
 				w.EnvCreate(sc.NewBR(&sc.Others[0]))
 				_ = w.EnvDeletePod("c0") // its handler was lost with the previous process; the startup Sync has to clean up
-				return []func(){reconcileBody(p, "a", &errsSink), reconcileBody(p, "b", &errsSink), func() { _ = p.RRS.Sync(bgctx) }}
+				return func(w *br.World, p *br.Proc) []func() {
+					return []func(){reconcileBody(p, "a", &errsSink), reconcileBody(p, "b", &errsSink), func() { _ = p.RRS.Sync(bgctx) }}
+				}
 			}),
 	}
 	if tier == "thorough" {
 		ps = append(ps,
 			mk("bind(multi g1,g2)||bind(multi g2,g1)", []string{"reconcile(m)", "reconcile(n)"}, nil, fracWL("m", "0.5", "g1", "g2"), []br.Workload{fracWL("n", "0.5", "g2", "g1")},
-				func(w *br.World, p *br.Proc, sc *br.Scenario) []func() {
+				func(w *br.World, sc *br.Scenario) func(w *br.World, p *br.Proc) []func() {
 					w.EnvCreate(sc.NewBR(&sc.Others[0]))
+					return func(w *br.World, p *br.Proc) []func() {
 					return []func(){reconcileBody(p, "m", &errsSink), reconcileBody(p, "n", &errsSink)}
-				}),
+				}
+			}),
 			mk("pod-delete-handler||bind||SyncForGpuGroup", []string{"pod-deleted(c0)", "reconcile(b)", "SyncForGpuGroup(g1)"}, []br.Workload{fracWL("c0", "0.3", "g1")}, fracWL("b", "0.5", "g1"), nil,
-				func(w *br.World, p *br.Proc, sc *br.Scenario) []func() {
+				func(w *br.World, sc *br.Scenario) func(w *br.World, p *br.Proc) []func() {
 					last := w.EnvDeletePod("c0")
+					return func(w *br.World, p *br.Proc) []func() {
 					return []func(){func() { p.PodDeleted(last) }, reconcileBody(p, "b", &errsSink), func() { _ = p.RRS.SyncForGpuGroup(bgctx, "g1") }}
-				}),
+				}
+			}),
 		)
 	}
 	return ps
@@ -139,7 +175,7 @@ func (o *runObs) sig() string {
 
 // runSchedule executes program pg under the schedule prefix (default continuation = never preempt).
 func runSchedule(pg *Program, prefix []int, bound int) (*runObs, error) {
-	w, bodies, err := pg.build()
+	w, bodies, err := pg.instance()
 	if err != nil {
 		return nil, err
 	}
@@ -160,7 +196,7 @@ func runSchedule(pg *Program, prefix []int, bound int) (*runObs, error) {
 	return o, nil
 }
 
-// interStats of one program.
+// interStats of one program (possibly partial: one worker's share of the schedule tree).
 type interStats struct {
 	Program       string         `json:"program"`
 	Schedules     int            `json:"schedules"`
@@ -168,15 +204,17 @@ type interStats struct {
 	ByPreemptions map[string]int `json:"by_preemptions"`
 	Contended     int            `json:"contended_schedules"`
 	Deadlocks     int            `json:"deadlocks"`
-	DistinctFinal int            `json:"distinct_final_states"`
+	Finals        []string       `json:"finals"` // hashes of distinct final stores
 	Replays       int            `json:"replays"`
 	Diverged      []string       `json:"diverged,omitempty"`
 	LockOps       int64          `json:"lock_ops"`
 	CapHit        bool           `json:"cap_hit"`
 	Findings      []InterFinding `json:"findings,omitempty"`
 	Sample        []string       `json:"sample,omitempty"`
+	SampleJob     int            `json:"sample_job"`
 	Err           string         `json:"err,omitempty"`
 	MaxPoints     int            `json:"max_points"`
+	Jobs          int            `json:"jobs"`
 }
 
 type InterFinding struct {
@@ -188,22 +226,58 @@ type InterFinding struct {
 	Events      []string `json:"events,omitempty"`
 }
 
-// exploreProgram is the preemption-bounded DFS over schedules.
-func exploreProgram(pg *Program, bound int, stop func() bool) interStats {
-	st := interStats{Program: pg.Name, ByPreemptions: map[string]int{}}
-	finals := map[string]bool{}
-	best := map[string]InterFinding{}
+// interJob is a subtree of a program's schedule tree: all schedules whose FIRST non-default
+// choice is value V at scheduling point I (I = -1: the default schedule alone). The subtrees
+// partition the tree, so they can be explored by different worker processes.
+type interJob struct {
+	Prog, I, V int
+}
+
+func interJobs(pgs []Program, bound int) ([]interJob, error) {
+	var jobs []interJob
+	for pi := range pgs {
+		o, err := runSchedule(&pgs[pi], nil, boundFor(&pgs[pi], bound))
+		if err != nil {
+			return nil, err
+		}
+		jobs = append(jobs, interJob{pi, -1, 0})
+		for i, p := range o.Points {
+			for v := 1; v < p.allowed; v++ {
+				jobs = append(jobs, interJob{pi, i, v})
+			}
+		}
+	}
+	return jobs, nil
+}
+
+func betterFinding(a, b InterFinding) bool { // a better than b
+	if a.Preemptions != b.Preemptions {
+		return a.Preemptions < b.Preemptions
+	}
+	if len(a.Schedule) != len(b.Schedule) {
+		return len(a.Schedule) < len(b.Schedule)
+	}
+	return fmt.Sprint(a.Schedule) < fmt.Sprint(b.Schedule)
+}
+
+// exploreSubtree is the preemption-bounded DFS over the schedules of one job, accumulating into st.
+func exploreSubtree(pg *Program, job interJob, jobIdx int, bound int, stop func() bool, st *interStats, finals map[string]bool, best map[string]InterFinding) {
 	prefix := []int{}
-	lock0 := syncshim.LockOps.Load()
+	floor := 0
+	if job.I >= 0 {
+		prefix = append(make([]int, job.I), job.V)
+		floor = job.I + 1
+	}
+	st.Jobs++
 	for {
 		if stop() {
 			st.CapHit = true
-			break
+			return
 		}
 		o, err := runSchedule(pg, prefix, bound)
 		if err != nil {
 			st.Err = err.Error()
-			return st
+			return
 		}
 		st.Schedules++
 		st.Transitions += len(o.Points)
@@ -217,20 +291,22 @@ func exploreProgram(pg *Program, bound int, stop func() bool) interStats {
 		if len(o.Points) > st.MaxPoints {
 			st.MaxPoints = len(o.Points)
 		}
-		finals[strings.Join(o.Final, ";")] = true
+		finals[engineHash(strings.Join(o.Final, ";"))] = true
 		full := make([]int, len(o.Points))
 		for i, p := range o.Points {
 			full[i] = p.chosen
 		}
 		for _, f := range o.Findings {
 			key := fmt.Sprintf("C17/%s after=interleaving[%s]", f.Key, pg.Name)
-			if b, ok := best[key]; !ok || o.Preemptions < b.Preemptions {
-				best[key] = InterFinding{Key: key, Msg: f.Msg, Program: pg.Name, Schedule: full, Preemptions: o.Preemptions, Events: o.Events}
+			cand := InterFinding{Key: key, Msg: f.Msg, Program: pg.Name, Schedule: trimSchedule(full), Preemptions: o.Preemptions, Events: o.Events}
+			if b, ok := best[key]; !ok || betterFinding(cand, b) {
+				best[key] = cand
 			}
 		}
 		if st.Sample == nil && o.Preemptions >= 1 && o.Contended > 0 {
 			st.Sample = append([]string{fmt.Sprintf("schedule %v (%d preemptions)", trimSchedule(full), o.Preemptions)}, o.Events...)
 			st.Sample = append(st.Sample, "=> "+strings.Join(o.Final, " ; "))
+			st.SampleJob = jobIdx
 		}
 		// determinism: replay every 8th schedule
 		if st.Schedules%8 == 1 {
@@ -240,33 +316,21 @@ func exploreProgram(pg *Program, bound int, stop func() bool) interStats {
 				st.Diverged = append(st.Diverged, fmt.Sprint(trimSchedule(full)))
 			}
 		}
-		// backtrack: deepest point with an untried alternative
+		// backtrack: deepest point (not below the job's floor) with an untried alternative
 		i := len(o.Points) - 1
-		for ; i >= 0; i-- {
+		for ; i >= floor; i-- {
 			if o.Points[i].chosen+1 < o.Points[i].allowed {
 				break
 			}
 		}
-		if i < 0 {
-			break
+		if i < floor {
+			return
 		}
 		prefix = append(append([]int{}, full[:i]...), full[i]+1)
 	}
-	st.LockOps = syncshim.LockOps.Load() - lock0
-	st.DistinctFinal = len(finals)
-	keys := []string{}
-	for k := range best {
-		keys = append(keys, k)
-	}
-	sort.Strings(keys)
-	for _, k := range keys {
-		f := best[k]
-		f.Schedule = trimSchedule(f.Schedule)
-		f.Msg = fmt.Sprintf("%s (fewest preemptions among violating schedules: %d)", f.Msg, f.Preemptions)
-		st.Findings = append(st.Findings, f)
-	}
-	return st
 }
+
+func engineHash(s string) string { return engine.HashKey(s) }
 
 // trimSchedule drops the trailing zeros (the default continuation).
 func trimSchedule(s []int) []int {
@@ -276,3 +340,6 @@ func trimSchedule(s []int) []int {
 	}
 	return append([]int{}, s[:n]...)
 }
+
+var _ = sort.Strings
+var _ = syncshim.Install
